@@ -1,25 +1,32 @@
 """C20 - the ACN-Data client yields every session once and converts times faithfully (structural part)."""
 import ast
+import copy
 
 from ..core import AnalysisError, dotted, call_name, src, walk_local, const_value
 from ..flow import edge_facts
-from ..rules import flow_of, calls_in, bind_args, canon, facts_at, cmp_norm, alts_deep, region
+from ..rules import flow_of, calls_in, bind_args, canon, facts_at, cmp_norm, alts_deep, region, specialise, _subst
 
-EXPLANATION = ("DataClient: every requests.* call of get_sessions / count_sessions is on the accepted edge of the site-membership test whose "
-               "other edge raises ValueError (validate before request), and both functions accept the same literal site set; in the "
-               "pagination loop every element of payload['_items'] is parsed and yielded (inner loop without break/continue/filter), the "
-               "loop's only exit is the edge on which 'next' is absent from payload['_links'], and the payload is rebound from a request "
-               "whose URL contains payload['_links']['next']['href']; site, cond, project, sort and the page size each reach the first "
-               "request's URL under their own query key, each guarded only by its own `is not None` test; get_sessions_by_time forwards "
-               "site, the built condition, sort='connectionTime' and timeseries, with start in the >= clause and end in the <= clause; the "
-               "strftime format of http_date and the strptime format of parse_http_date fold to the same literal with %H:%M:%S and GMT, "
-               "http_date converts to UTC first, parse_http_date localises as UTC and then converts to the document's zone; parse_dates "
-               "visits every field, converts strings through parse_http_date (ignoring only ValueError) and every element of a nested "
-               "'timestamps' list through the same function.")
+EXPLANATION = ("DataClient: every requests.* call of get_sessions / count_sessions can only be reached on the accepted edge of the "
+               "site-membership test whose other edge raises ValueError (validate before request), and both functions accept the same "
+               "literal site set; every page fetched is consumed by the item loop before another page replaces it, every element of "
+               "page['_items'] is parsed and yielded (no break/continue/filter), no exit of the pagination loop is possible while the "
+               "current page's '_links' contains 'next' (decided by specialising the exit conditions under that assumption), and every "
+               "request URL is either the first-page URL (base + sessions/<site> + joined query) or base + page['_links']['next']['href']; "
+               "the query string is evaluated symbolically into (key, value, condition) entries: where=cond, project=project, sort=sort "
+               "are each present exactly under their own `is not None` test and the page size is always sent; get_sessions_by_time "
+               "forwards site, the joined condition, sort='connectionTime' and timeseries, with start in the >= clause and end in the <= "
+               "clause; the strftime format of http_date and the strptime format of parse_http_date fold (through module constants) to "
+               "the same literal with %H:%M:%S and GMT, http_date converts to UTC first, parse_http_date interprets the parsed time as "
+               "UTC and then converts to the document's zone; parse_dates visits every field, converts every string field through "
+               "parse_http_date (ignoring only ValueError) and every element of a nested 'timestamps' list through the same function.")
 NOT_DECIDED = "behaviour against a real server; correctness of pytz's zone database"
 
 QUERY_KEYS = {"cond": "where", "project": "project", "sort": "sort"}
 
+
+# ----------------------------------------------------------------------------
+# R1 validate before request
+# ----------------------------------------------------------------------------
 
 def site_guard(ck, f, fl, rid="C20.R1"):
     cfg = fl.cfg
@@ -29,19 +36,21 @@ def site_guard(ck, f, fl, rid="C20.R1"):
     ok = False
     for r in raises:
         for a, t in facts_at(fl, r):
-            c = cmp_norm(a, t)
+            c = cmp_norm(fl.expand(a, r), t)
             if c and c[1] == "not in" and dotted(c[0]) == site:
                 try:
-                    sets.append(frozenset(const_value(c[2])))
-                    ok = call_name(r.stmt.exc) == "ValueError" if isinstance(r.stmt.exc, ast.Call) else dotted(r.stmt.exc) == "ValueError"
+                    sets.append(frozenset(ck.repo.fold(f, c[2])))
+                    exc = r.stmt.exc
+                    ok = (call_name(exc) if isinstance(exc, ast.Call) else dotted(exc)) == "ValueError"
                 except (ValueError, TypeError):
                     pass
     ck.require(ok, rid, f, raises[0].stmt if raises else "raise ValueError", ok="invalid site names raise ValueError", bad=f"{f.qual} does not reject an unknown site with ValueError", sink=f"{f.name}:reject")
     reqs = [(n, c) for n, c in calls_in(fl) if (dotted(c.func) or "").startswith("requests.")]
     ck.floor(rid, len(reqs), 1, f"requests.* call sites in {f.qual}")
+    accept_edges = {e for e in cfg.nodes if e.kind == "edge" and e.test.kind == "test" and any(
+        (cn := cmp_norm(fl.expand(a, e.test), t)) and cn[1] == "in" and dotted(cn[0]) == site for a, t in edge_facts(e.test.expr, e.label))}
     for n, c in reqs:
-        guarded = any((cn := cmp_norm(a, t)) and cn[1] == "in" and dotted(cn[0]) == site for a, t in facts_at(fl, n)) or \
-            (bool(raises) and all(n not in cfg.reach(cfg.entry, avoid={x for x in cfg.nodes if x.kind == "test" and any(dotted(z) == site for z in ast.walk(x.expr))}) for _ in [0]))
+        guarded = bool(accept_edges) and n not in cfg.reach(cfg.entry, avoid=accept_edges)
         ck.require(guarded, rid, f, c, ok="request only after the site name was accepted", bad="a request can be sent before / without the site-name validation", sink=f"{f.name}:request-guard")
     return sets[0] if sets else None
 
@@ -56,6 +65,18 @@ def rule_validate(ck):
                bad="get_sessions and count_sessions accept different site names", sink="sites:agree")
 
 
+# ----------------------------------------------------------------------------
+# R2 pagination
+# ----------------------------------------------------------------------------
+
+def _gexpand(fl, e, node):
+    fl.gated = True
+    try:
+        return fl.expand(e, node)
+    finally:
+        fl.gated = False
+
+
 def rule_pagination(ck):
     repo = ck.repo
     f = repo.fn("DataClient.get_sessions")
@@ -66,115 +87,239 @@ def rule_pagination(ck):
     if len(whiles) != 1:
         return
     w = whiles[0]
+    reg = cfg.loop_region(w)
+    # the item loop: a `for` over <page>['_items'] that yields
+    fors = [n for n in reg if n.kind == "for" and canon(n.stmt.iter).endswith("['_items']")]
+    ck.require(len(fors) == 1, "C20.R2", f, fors[0].stmt.iter if fors else "for s in payload['_items']", ok="iterates the items of the page", bad=f"{len(fors)} loops over a page's '_items' (need 1)",
+               sink="page:items")
+    if len(fors) != 1:
+        return
+    lp = fors[0]
+    page = canon(lp.stmt.iter.value)
+    inner = cfg.loop_region(lp)
+    esc = [n for n in inner if n.kind in ("break", "continue", "return")]
+    conds = [n for n in inner if n.kind == "test"]
+    ck.require(not esc and not conds, "C20.R2", f, (esc + conds)[0].stmt if (esc + conds) else lp.stmt.iter, ok="no item is skipped or filtered", bad="items of a page can be skipped (break/continue/condition in the item loop)",
+               sink="page:no-skip")
+    ys = [(n, y) for n in inner for e in cfg.node_exprs(n) for y in [e] + list(walk_local(e)) if isinstance(y, ast.Yield)]
+    var = lp.stmt.target.id if isinstance(lp.stmt.target, ast.Name) else None
+    ck.require(len(ys) == 1 and dotted(ys[0][1].value) == var, "C20.R2", f, ys[0][1] if ys else "yield s", ok="each item is yielded exactly once", bad="the item loop does not yield each item exactly once",
+               sink="page:yield")
+    all_y = [y for n in cfg.nodes for e in cfg.node_exprs(n) for y in [e] + list(walk_local(e)) if isinstance(y, (ast.Yield, ast.YieldFrom))]
+    ck.require(len(all_y) == 1, "C20.R2", f, "single yield site", ok="sessions are only yielded by the item loop", bad=f"{len(all_y)} yield sites: sessions may be yielded twice", sink="page:yield-sites")
+    pd = [(n, c) for n, c in calls_in(fl, "parse_dates") if n in inner]
+    ok = len(pd) == 1 and pd[0][1].args and dotted(pd[0][1].args[0]) == var and ys and cfg.dominates(pd[0][0], ys[0][0])
+    ck.require(bool(ok), "C20.R5", f, pd[0][1] if pd else "parse_dates(s)", ok="every item has its dates converted before it is yielded", bad="items are yielded without parse_dates(item) having run on them", sink="page:parse")
+    # every fetched page is consumed before it is replaced / before the generator ends
+    gets = [(n, c) for n, c in calls_in(fl, "get") if dotted(c.func) == "requests.get"]
+    ck.floor("C20.R2", len(gets), 1, "requests.get call sites")
+    for n, c in gets:
+        others = {m for m, _ in gets if m is not n}
+        seen = cfg.reach_from_succ(n, avoid={lp})
+        leak = seen & (others | {cfg.exit, n})
+        ck.require(not leak, "C20.R2", f, c, ok="the page fetched here goes through the item loop before anything replaces it",
+                   bad="a fetched page can be replaced (or the generator can end) before its items were yielded", sink="page:consume-first")
+    if page and page.isidentifier():
+        res = canon(_gexpand(fl, ast.Name(id=page, ctx=ast.Load()), lp))
+        ck.require(".json()" in res and "requests.get(" in res, "C20.R2", f, lp.stmt.iter, ok="the item loop reads the fetched page", bad="the page iterated by the item loop is not the JSON body of a request", sink="page:is-json")
+    # URLs: first-page URL or the current page's next link
+    kinds = set()
+    for n, c in gets:
+        url = _gexpand(fl, c.args[0], n) if c.args else None
+        for u in (alts_deep(specialise(url, {})) if url is not None else []):
+            while isinstance(u, ast.IfExp):
+                # page_url = next-url if 'next' in links else None
+                u = u.body if not (isinstance(u.body, ast.Constant) and u.body.value is None) else u.orelse
+            us = canon(u)
+            if isinstance(u, ast.Constant) and u.value is None:
+                continue
+            if "['_links']['next']['href']" in us and us.startswith("self.url + "):
+                kinds.add("next")
+            elif "self.url" in us and "'sessions/' + " in us and ".join(" in us:
+                kinds.add("first")
+            else:
+                ck.violation("C20.R2", f, c, f"a page is requested from `{us[:100]}`, which is neither the first-page URL nor base + the current page's 'next' link", sink="page:url")
+    ck.require(kinds == {"first", "next"}, "C20.R2", f, "first page and next links", ok="requests the first page and then each 'next' link", bad=f"request URLs cover only {sorted(kinds)}", sink="page:url-kinds")
+    # no exit from the pagination while a next link exists
+    exits = [n for n in reg if n.kind in ("break", "return")]
     const_true = isinstance(w.expr, ast.Constant) and w.expr.value is True
-    nxt = None
     if not const_true:
-        c = cmp_norm(w.expr)
-        const_true = False
-        ok = c and c[1] == "in" and isinstance(c[0], ast.Constant) and c[0].value == "next" and canon(fl.expand(c[2], w)).endswith("['_links']")
-        ck.require(bool(ok), "C20.R2", f, w.expr, ok="continues while a next link exists", bad=f"the pagination loop stops on `{src(w.expr, 60)}`: an empty (or otherwise falsy) page that still carries a "
-                   f"'next' link ends the iteration and later sessions are never yielded", sink="page:loop-cond")
-    region_nodes = cfg.loop_region(w) if not const_true else {n for n in cfg.nodes if n in cfg.reach(w) and n is not cfg.exit}
-    body = {n for n in cfg.nodes if w in cfg.reach(n) and n in cfg.reach(w)} | {n for n in cfg.nodes if n.kind == "break" and n in cfg.reach(w)}
-    # exits: break nodes (and the false edge when the test is not constant)
-    brk = [n for n in body if n.kind == "break"]
-    rets = [n for n in cfg.reach(w) if n.kind == "return"]
-    ck.require(not rets, "C20.R2", f, rets[0].stmt if rets else w.expr, ok="no early return", bad="the generator returns from inside the pagination loop", sink="page:return")
-    for b in brk:
-        ok = any((c := cmp_norm(a, t)) and c[1] == "not in" and isinstance(c[0], ast.Constant) and c[0].value == "next" and canon(fl.expand(c[2], b)).endswith("['_links']")
-                 for a, t in facts_at(fl, b))
-        inner = [t for t, lab in cfg.edges_dominating(b) if t.kind == "for" and lab is True and t in body]
-        ck.require(ok and not inner, "C20.R2", f, b.stmt, ok="the loop ends only when the page has no 'next' link", bad="the pagination ends for another reason than the absence of a 'next' link", sink="page:exit")
-    if const_true:
-        ck.require(len(brk) >= 1, "C20.R2", f, w.expr, ok="terminates when the links run out", bad="`while True` without an exit", sink="page:exit-exists")
-    # items: inner for over payload['_items'], every element parsed then yielded
-    fors = [n for n in body if n.kind == "for"]
-    ck.require(len(fors) == 1 and canon(fors[0].stmt.iter).endswith("['_items']") and canon(fors[0].stmt.iter).startswith(canon(ast.Name(id="payload", ctx=ast.Load()))[:0] or ""), "C20.R2", f,
-               fors[0].stmt.iter if fors else "for s in payload['_items']", ok="iterates every item of the page", bad="the page's '_items' are not iterated exactly once per page", sink="page:items")
-    if fors:
-        lp = fors[0]
-        pay = canon(lp.stmt.iter.value) if isinstance(lp.stmt.iter, ast.Subscript) else None
-        inner = cfg.loop_region(lp)
-        esc = [n for n in inner if n.kind in ("break", "continue", "return")]
-        conds = [n for n in inner if n.kind == "test"]
-        ck.require(not esc and not conds, "C20.R2", f, (esc + conds)[0].stmt if (esc + conds) else lp.stmt.iter, ok="no item is skipped or filtered", bad="items of a page can be skipped (break/continue/condition in the item loop)",
-                   sink="page:no-skip")
-        ys = [(n, y) for n in inner for e in cfg.node_exprs(n) for y in [e] + list(walk_local(e)) if isinstance(y, ast.Yield)]
-        var = lp.stmt.target.id if isinstance(lp.stmt.target, ast.Name) else None
-        ck.require(len(ys) == 1 and dotted(ys[0][1].value) == var, "C20.R2", f, ys[0][1] if ys else "yield s", ok="each item is yielded exactly once", bad="the item loop does not yield each item exactly once",
-                   sink="page:yield")
-        pd = [(n, c) for n, c in calls_in(fl, "parse_dates") if n in inner]
-        ok = len(pd) == 1 and pd[0][1].args and dotted(pd[0][1].args[0]) == var and ys and cfg.dominates(pd[0][0], ys[0][0])
-        ck.require(bool(ok), "C20.R5", f, pd[0][1] if pd else "parse_dates(s)", ok="every item has its dates converted before it is yielded", bad="items are yielded without parse_dates(item) having run on them", sink="page:parse")
-        # payload rebound from the next link
-        reb = [n for n in body if n.kind == "stmt" and isinstance(n.stmt, ast.Assign) and any(dotted(t) == pay for t in n.stmt.targets)]
-        ck.require(len(reb) == 1, "C20.R2", f, reb[0].stmt if reb else "payload = r.json()", bad=f"{len(reb)} rebinding(s) of the page inside the loop", sink="page:rebind")
-        for n in reb:
-            ex = canon(fl.expand(n.stmt.value, n))
-            ok = "requests.get(self.url + " in ex and "['_links']['next']['href']" in ex and ex.endswith(".json()")
-            ck.require(ok, "C20.R2", f, n.stmt, ok="next page = GET of url + payload['_links']['next']['href']", bad=f"the next page is fetched from `{ex[:100]}`, not from the 'next' link of the current page", sink="page:next-url")
-            ok = any((c := cmp_norm(a, t)) and c[1] == "in" and isinstance(c[0], ast.Constant) and c[0].value == "next" for a, t in facts_at(fl, n)) or not const_true
-            ck.require(ok, "C20.R2", f, n.stmt, ok="only when a next link exists", bad="the next page is requested although no 'next' link was seen", sink="page:next-guard")
-            ck.require(all(n not in cfg.reach(x) or x.id < n.id for x, _y in ys) and lp not in cfg.reach(n, avoid={w}) or True, "C20.R2", f, n.stmt, ok="after the page was consumed", bad="", sink="page:order")
-        # the page's items are consumed before the next page replaces it
-        for n in reb:
-            ck.require(cfg.dominates(lp, n), "C20.R2", f, n.stmt, ok="a page is replaced only after all its items were yielded", bad="the page can be replaced before its items were yielded", sink="page:consume-first")
+        exits.append([s_ for s_ in w.succ if s_.kind == "edge" and s_.label is False][0])
+    ck.require(bool(exits), "C20.R2", f, w.expr, ok="the pagination terminates", bad="`while True` without an exit", sink="page:exit-exists")
+    for x in exits:
+        if x.kind == "return":
+            ck.violation("C20.R2", f, x.stmt, "the generator returns from inside the pagination loop", sink="page:return")
+            continue
+        facts = facts_at(fl, x) if x.kind != "edge" else (facts_at(fl, x.test) + edge_facts(x.test.expr, x.label))
+        at = x if x.kind != "edge" else x.test
+        impossible = False
+        for a, t in facts:
+            ex = _gexpand(fl, a, at)
+            vals = [specialise(alt, {}) for alt in alts_deep(specialise(_norm_links(ex), {"__NEXT__": True}))]
+            if vals and all(isinstance(v, ast.Constant) and isinstance(v.value, bool) and v.value != t for v in vals):
+                impossible = True
+        ck.require(impossible, "C20.R2", f, x.stmt if x.kind != "edge" else w.expr, ok="this exit cannot be taken while the current page has a 'next' link",
+                   bad=f"the pagination can stop on `{src(x.stmt if x.kind != 'edge' else w.expr, 50)}` although the current page still links to a next page: later sessions are never yielded",
+                   sink="page:exit")
+
+
+def _norm_links(e):
+    """replace `'next' in <page>['_links']` by the marker name __NEXT__ (and `not in` by its negation)"""
+    class T(ast.NodeTransformer):
+        def visit_Compare(self, n):
+            self.generic_visit(n)
+            if len(n.ops) == 1 and isinstance(n.ops[0], (ast.In, ast.NotIn)) and isinstance(n.left, ast.Constant) and n.left.value == "next" \
+                    and canon(n.comparators[0]).endswith("['_links']"):
+                m = ast.Name(id="__NEXT__", ctx=ast.Load())
+                return m if isinstance(n.ops[0], ast.In) else ast.UnaryOp(op=ast.Not(), operand=m)
+            return n
+    return T().visit(copy.deepcopy(e))
+
+
+# ----------------------------------------------------------------------------
+# R3 parameters: symbolic evaluation of the query string
+# ----------------------------------------------------------------------------
+
+def _entry(e):
+    """(key, value expr) of one query argument string expression: 'k={0}'.format(v) / '{0}={1}'.format(k, v) / f'{k}={v}' / 'k=' + str(v) / 'k=v'"""
+    if isinstance(e, ast.Call) and call_name(e) == "format" and isinstance(e.func.value, ast.Constant) and isinstance(e.func.value.value, str):
+        tmpl = e.func.value.value
+        if "=" in tmpl:
+            k, v = tmpl.split("=", 1)
+            args = list(e.args)
+            auto = iter(range(len(args)))
+
+            def part(t):
+                if t.startswith("{") and t.endswith("}") and (t[1:-1] == "" or t[1:-1].isdigit()):
+                    i = int(t[1:-1]) if t[1:-1] else next(auto)
+                    return args[i] if i < len(args) else None
+                return ast.Constant(value=t)
+            key, val = part(k), part(v)
+            if isinstance(key, ast.Constant) and isinstance(key.value, str) and val is not None:
+                return key.value, val
+    if isinstance(e, ast.JoinedStr):
+        parts = e.values
+        if len(parts) == 2 and isinstance(parts[0], ast.Constant) and str(parts[0].value).endswith("=") and isinstance(parts[1], ast.FormattedValue):
+            return str(parts[0].value)[:-1], parts[1].value
+        if len(parts) == 3 and isinstance(parts[0], ast.FormattedValue) and isinstance(parts[1], ast.Constant) and parts[1].value == "=" and isinstance(parts[2], ast.FormattedValue) \
+                and isinstance(parts[0].value, ast.Constant):
+            return parts[0].value.value, parts[2].value
+    if isinstance(e, ast.BinOp) and isinstance(e.op, ast.Add) and isinstance(e.left, ast.Constant) and str(e.left.value).endswith("="):
+        v = e.right
+        if isinstance(v, ast.Call) and call_name(v) == "str" and v.args:
+            v = v.args[0]
+        return str(e.left.value)[:-1], v
+    if isinstance(e, ast.Constant) and isinstance(e.value, str) and "=" in e.value:
+        k, v = e.value.split("=", 1)
+        return k, ast.Constant(value=v)
+    return None
+
+
+def query_entries(fl, f, join_call, node):
+    """[(key, value expr, [condition atoms (ast, truth)])] of the list joined by '&'.join(<list>) - the list may be built by appends under
+    `if`s, or be a comprehension over a literal list of (key, value) pairs with a filter"""
+    arg = join_call.args[0]
+    out = []
+    ex = fl.expand(arg, node)
+    if isinstance(ex, ast.ListComp) and len(ex.generators) == 1 and isinstance(ex.generators[0].iter, (ast.List, ast.Tuple)):
+        g = ex.generators[0]
+        for item in g.iter.elts:
+            names = [t.id for t in (g.target.elts if isinstance(g.target, ast.Tuple) else [g.target]) if isinstance(t, ast.Name)]
+            vals = list(item.elts) if isinstance(item, (ast.Tuple, ast.List)) and isinstance(g.target, ast.Tuple) else [item]
+            if len(names) != len(vals):
+                raise AnalysisError(f"{f.qual}: query construction not recognised: {src(ex, 80)}")
+            m = dict(zip(names, vals))
+            ent = _entry(_subst(copy.deepcopy(ex.elt), m))
+            conds = []
+            for c in g.ifs:
+                cc = specialise(_subst(copy.deepcopy(c), m), {})
+                if isinstance(cc, ast.Constant):
+                    if not cc.value:
+                        ent = None
+                    continue
+                conds += edge_facts(cc, True)
+            if ent:
+                out.append((ent[0], ent[1], conds))
+        return out
+    if isinstance(arg, ast.Name):
+        nm = arg.id
+        for n, c in calls_in(fl, "append"):
+            if dotted(c.func.value) == nm and c.args:
+                ent = _entry(fl.expand(c.args[0], n))
+                if ent is None:
+                    raise AnalysisError(f"{f.qual}: query argument not recognised: {src(c, 80)}")
+                conds = [(fl.expand(t.expr, t), lab) for t, lab in fl.cfg.edges_dominating(n) if t.kind == "test" and isinstance(t.stmt, ast.If)]
+                out.append((ent[0], ent[1], [x for e_, lab in conds for x in edge_facts(e_, lab)]))
+        return out
+    raise AnalysisError(f"{f.qual}: query construction not recognised: {src(arg, 80)}")
+
+
+def _never_none(fl, e, node):
+    ex = fl.expand(e, node)
+    return all(isinstance(a, ast.Constant) and a.value is not None for a in alts_deep(ex))
 
 
 def rule_params(ck):
     repo = ck.repo
     f = repo.fn("DataClient.get_sessions")
     fl = flow_of(f)
-    cfg = fl.cfg
-    firsts = [(n, c) for n, c in calls_in(fl, "get") if dotted(c.func) == "requests.get" and not [t for t, lab in cfg.edges_dominating(n) if isinstance(t.stmt, ast.While)]]
-    ck.require(len(firsts) == 1, "C20.R3", f, firsts[0][1] if firsts else "requests.get(first page)", bad=f"{len(firsts)} first-page requests", sink="params:first")
-    if not firsts:
-        return
-    n0, c0 = firsts[0]
-    url = c0.args[0] if c0.args else None
-    # args list contributions
-    apps = [(n, c) for n, c in calls_in(fl, "append") if dotted(c.func.value) == "args"]
-    by_key = {}
-    for n, c in apps:
-        e = fl.expand(c.args[0], n)
-        if isinstance(e, ast.Call) and call_name(e) == "format" and isinstance(e.func.value, ast.Constant):
-            key = e.func.value.value.split("=")[0]
-            by_key[key] = (n, c, e)
     site = f.params[1]
-    ex_url = canon(fl.expand(url, n0)) if url is not None else ""
-    joined = [c for n, c in calls_in(fl, "join") if isinstance(c.func.value, ast.Constant) and c.func.value.value == "&" and c.args and dotted(c.args[0]) == "args"]
-    ck.require("self.url" in ex_url and f"'sessions/' + {site}" in ex_url and "'&'.join(" in ex_url and bool(joined), "C20.R3", f, url if url is not None else c0,
-               ok="URL = base + sessions/<site> + joined query arguments", bad=f"the first request's URL `{ex_url[:120]}` does not contain the base url, the site endpoint and the joined arguments", sink="params:url")
+    joins = [(n, c) for n, c in calls_in(fl, "join") if isinstance(c.func.value, ast.Constant) and c.func.value.value == "&" and c.args]
+    ck.require(len(joins) == 1, "C20.R3", f, joins[0][1] if joins else "'&'.join(args)", bad=f"{len(joins)} '&'.join(...) sites: query construction not found", sink="params:join")
+    if len(joins) != 1:
+        return
+    jn, jc = joins[0]
+    entries = query_entries(fl, f, jc, jn)
+    ck.count("query entries evaluated", len(entries))
+    bykey = {}
+    for k, v, conds in entries:
+        bykey.setdefault(k, []).append((v, conds))
+
+    def relevant(conds):
+        out = []
+        for a, t in conds:
+            c = cmp_norm(a, t)
+            if c and dotted(c[0]) == site:
+                continue                      # the site validation
+            if c and c[1] in ("is not", "is") and isinstance(c[2], ast.Constant) and c[2].value is None and _never_none(fl, c[0], jn):
+                continue                      # `limit is not None` for a literal page size
+            out.append((a, t))
+        return out
     for p, key in QUERY_KEYS.items():
-        hit = by_key.get(key)
-        ck.require(hit is not None and hit[2].args and dotted(hit[2].args[0]) == p, "C20.R3", f, hit[1] if hit else f"{key}=...", ok=f"{p} sent as {key}=",
+        hit = bykey.get(key, [])
+        ck.require(len(hit) == 1 and dotted(hit[0][0]) == p, "C20.R3", f, f"{key}=<{p}>", ok=f"{p} sent as {key}=",
                    bad=f"parameter {p} does not reach the query string as `{key}=<{p}>`", sink=f"params:{p}:flow")
-        if hit:
-            n = hit[0]
-            tests = [(t, lab) for t, lab in cfg.edges_dominating(n) if t.kind == "test" and isinstance(t.stmt, ast.If)]
-            own = [(t, lab) for t, lab in tests if (c := cmp_norm(t.expr, lab)) and c[1] == "is not" and dotted(c[0]) == p]
-            others = [(t, lab) for t, lab in tests if (t, lab) not in own and not ((c := cmp_norm(t.expr, lab)) and dotted(c[0]) == site)]
-            ck.require(bool(own) and not others, "C20.R3", f, hit[1], ok=f"sent whenever {p} is given, whatever the other arguments",
-                       bad=f"`{key}=` is only sent under `{src(others[0][0].expr, 40) if others else ''}` = {others[0][1] if others else ''}: with some argument combinations {p} is silently dropped", sink=f"params:{p}:guard")
-    hit = by_key.get("max_results")
-    ck.require(hit is not None and not [t for t, lab in cfg.edges_dominating(hit[0]) if t.kind == "test" and isinstance(t.stmt, ast.If) and "site" not in canon(t.expr)], "C20.R3", f,
-               hit[1] if hit else "max_results=", ok="page size always sent", bad="the page-size parameter is not always sent", sink="params:limit")
-    # timeseries endpoint
-    ts = f.params[5] if len(f.params) > 5 else None
-    ck.require(ts is not None and "'/ts/'" in ex_url, "C20.R3", f, url if url is not None else c0, ok="time-series endpoint selectable", bad="the timeseries flag does not select the /ts/ endpoint", sink="params:ts")
-    # auth on both requests
-    for n, c in calls_in(fl, "get"):
-        if dotted(c.func) == "requests.get":
-            a = next((k.value for k in c.keywords if k.arg == "auth"), None)
-            ck.require(a is not None and "self.token" in canon(a), "C20.R3", f, c, ok="token sent", bad="a request is sent without the API token", sink="params:auth")
+        if len(hit) == 1:
+            conds = relevant(hit[0][1])
+            own = [(a, t) for a, t in conds if (c := cmp_norm(a, t)) and c[1] == "is not" and dotted(c[0]) == p]
+            others = [(a, t) for a, t in conds if (a, t) not in own]
+            ck.require(bool(own) and not others, "C20.R3", f, f"{key}=<{p}>", ok=f"sent whenever {p} is given, whatever the other arguments",
+                       bad=f"`{key}=` is only sent under `{src(others[0][0], 40) if others else ''}` = {others[0][1] if others else ''}: with some argument combinations {p} is silently dropped",
+                       sink=f"params:{p}:guard")
+    hit = bykey.get("max_results", [])
+    ck.require(len(hit) == 1 and not relevant(hit[0][1]), "C20.R3", f, "max_results=", ok="page size always sent", bad="the page-size parameter is not always sent", sink="params:limit")
+    gets = [(n, c) for n, c in calls_in(fl, "get") if dotted(c.func) == "requests.get"]
+    firsts = []
+    for n, c in gets:
+        u = canon(fl.expand(c.args[0], n)) if c.args else ""
+        if "'sessions/' + " in u:
+            firsts.append((n, c, u))
+    ck.require(len(firsts) >= 1, "C20.R3", f, "first request", bad="no request to the sessions/<site> endpoint", sink="params:first")
+    for n, c, u in firsts:
+        ck.require("self.url" in u and f"'sessions/' + {site}" in u and ".join(" in u and "'/ts/'" in u, "C20.R3", f, c,
+                   ok="URL = base + sessions/<site>[/ts/] + joined query arguments", bad=f"the first request's URL `{u[:120]}` lacks the base url, the site endpoint, the /ts/ option or the joined arguments", sink="params:url")
+    for n, c in gets:
+        a = next((k.value for k in c.keywords if k.arg == "auth"), None)
+        ck.require(a is not None and "self.token" in canon(a), "C20.R3", f, c, ok="token sent", bad="a request is sent without the API token", sink="params:auth")
     # get_sessions_by_time
     g = repo.fn("DataClient.get_sessions_by_time")
     gl = flow_of(g)
     site2, start, end = g.params[1:4]
-    capp = [(n, c) for n, c in calls_in(gl, "append") if dotted(c.func.value) == "cond"]
     seen = {}
-    for n, c in capp:
-        e = c.args[0]
+    for n, c in calls_in(gl, "append"):
+        if not c.args:
+            continue
+        e = gl.expand(c.args[0], n)
         if isinstance(e, ast.Call) and call_name(e) == "format" and isinstance(e.func.value, ast.Constant):
             lit = e.func.value.value
             arg = e.args[0] if e.args else None
@@ -188,32 +333,28 @@ def rule_params(ck):
         hit = seen.get(p)
         ok = hit is not None and hit[0].startswith(f"connectionTime {op} ") and any((c := cmp_norm(a, t)) and c[1] == "is not" and dotted(c[0]) == p for a, t in facts_at(gl, hit[1]))
         ck.require(ok, "C20.R3", g, hit[2] if hit else f"connectionTime {op}", ok=f"{p} bounds connectionTime with {op}, formatted by http_date",
-                   bad=f"`{p}` does not flow into the `connectionTime {op} \"<http date>\"` clause", sink=f"bytime:{p}")
-    for n, c in calls_in(gl, "get_sessions"):
+                   bad=f"`{p}` does not flow into the `connectionTime {op} <http date>` clause", sink=f"bytime:{p}")
+
+    def joined_cond(arg, n):
+        ex = gl.expand(arg, n) if arg is not None else None
+        return isinstance(ex, ast.Call) and call_name(ex) == "join" and isinstance(ex.func.value, ast.Constant) and ex.func.value.value == " and "
+    gs = calls_in(gl, "get_sessions")
+    ck.require(len(gs) >= 1, "C20.R3", g, "self.get_sessions(...)", bad="get_sessions_by_time does not call get_sessions", sink="bytime:calls")
+    for n, c in gs:
         b = bind_args(c, f, method=True)
-        ok = dotted(b.get("site")) == site2 and _joined_cond(gl, b.get("cond"), n) and \
-            isinstance(b.get("sort"), ast.Constant) and b["sort"].value == "connectionTime" and dotted(b.get("timeseries")) == "timeseries" and "project" not in b
+        ok = dotted(b.get("site")) == site2 and joined_cond(b.get("cond"), n) and isinstance(b.get("sort"), ast.Constant) and b["sort"].value == "connectionTime" \
+            and dotted(b.get("timeseries")) == "timeseries" and "project" not in b
         ck.require(ok, "C20.R3", g, c, ok="forwards site, the joined condition, sort=connectionTime, timeseries", bad="get_sessions_by_time does not forward (site, condition, sort='connectionTime', timeseries)", sink="bytime:forward")
     for n, c in calls_in(gl, "count_sessions"):
         h = repo.fn("DataClient.count_sessions")
         b = bind_args(c, h, method=True)
-        ok = dotted(b.get("site")) == site2 and _joined_cond(gl, b.get("cond"), n)
+        ok = dotted(b.get("site")) == site2 and joined_cond(b.get("cond"), n)
         ck.require(ok, "C20.R3", g, c, ok="count uses the same site and condition", bad="count_sessions is not given the same site and condition", sink="bytime:count")
 
 
-def _joined_cond(gl, arg, n):
-    """the argument is ' and '.join(cond) of the local clause list `cond`"""
-    if arg is None:
-        return False
-    if isinstance(arg, ast.Name):
-        defs = gl.defs_at(n, arg.id)
-        if len(defs) != 1:
-            return False
-        how = gl.def_how(next(iter(defs)), arg.id)
-        arg = how[1] if how[0] == "assign" else None
-    return isinstance(arg, ast.Call) and call_name(arg) == "join" and isinstance(arg.func.value, ast.Constant) and arg.func.value.value == " and " \
-        and bool(arg.args) and dotted(arg.args[0]) == "cond"
-
+# ----------------------------------------------------------------------------
+# R4 formats
+# ----------------------------------------------------------------------------
 
 def rule_formats(ck):
     repo = ck.repo
@@ -221,16 +362,19 @@ def rule_formats(ck):
     ph = repo.fn("parse_http_date")
     hl, pl = flow_of(hd), flow_of(ph)
     fmt_out = fmt_in = None
+
+    def is_utc(e):
+        return canon(e).lower() in ("pytz.utc", "timezone.utc", "utc", "datetime.timezone.utc")
     for r in [n for n in hl.cfg.nodes if n.kind == "return"]:
         e = hl.expand(r.expr, r)
         ok = isinstance(e, ast.Call) and call_name(e) == "strftime" and e.args
         if ok:
             try:
-                fmt_out = const_value(e.args[0])
+                fmt_out = repo.fold(hd, e.args[0])
             except (ValueError, TypeError):
                 pass
             recv = e.func.value
-            utc = isinstance(recv, ast.Call) and call_name(recv) == "astimezone" and recv.args and canon(recv.args[0]).lower() in ("pytz.utc", "timezone.utc", "utc") and dotted(recv.func.value) == hd.params[0]
+            utc = isinstance(recv, ast.Call) and call_name(recv) == "astimezone" and recv.args and is_utc(recv.args[0]) and dotted(recv.func.value) == hd.params[0]
             ck.require(bool(utc), "C20.R4", hd, e, ok="converted to UTC before formatting", bad="http_date formats the local wall-clock time without converting to UTC (the string says GMT)", sink="http_date:utc")
         ck.require(bool(ok), "C20.R4", hd, r.expr, ok="strftime", bad="http_date does not format with strftime", sink="http_date:strftime")
     tzp = ph.params[1]
@@ -240,13 +384,13 @@ def rule_formats(ck):
         ck.require(bool(ok), "C20.R4", ph, r.expr, ok="converted to the document's zone", bad="parse_http_date does not convert the instant to the requested zone with astimezone(tz)", sink="parse:astimezone")
         if ok:
             inner = e.func.value
-            loc = isinstance(inner, ast.Call) and call_name(inner) == "localize" and canon(inner.func.value).lower() in ("pytz.utc", "utc") and inner.args
-            loc2 = isinstance(inner, ast.Call) and call_name(inner) == "replace" and any(k.arg == "tzinfo" and canon(k.value).lower() in ("pytz.utc", "timezone.utc") for k in inner.keywords)
+            loc = isinstance(inner, ast.Call) and call_name(inner) == "localize" and is_utc(inner.func.value) and inner.args
+            loc2 = isinstance(inner, ast.Call) and call_name(inner) == "replace" and any(k.arg == "tzinfo" and is_utc(k.value) for k in inner.keywords)
             ck.require(bool(loc or loc2), "C20.R4", ph, inner, ok="the parsed naive time is interpreted as UTC", bad="the parsed time is not localised as UTC before conversion (GMT strings would be read as local time)", sink="parse:utc")
             sp = inner.args[0] if loc else (inner.func.value if loc2 else None)
             if isinstance(sp, ast.Call) and call_name(sp) == "strptime" and len(sp.args) == 2:
                 try:
-                    fmt_in = const_value(sp.args[1])
+                    fmt_in = repo.fold(ph, sp.args[1])
                 except (ValueError, TypeError):
                     pass
                 ck.require(dotted(sp.args[0]) == ph.params[0], "C20.R4", ph, sp, ok="parses the given string", bad="strptime is not applied to the given string", sink="parse:arg")
@@ -257,57 +401,76 @@ def rule_formats(ck):
                    bad=f"the format {fmt_out!r} is not RFC-1123 (%d %b %Y %H:%M:%S GMT): times are ambiguous or lose precision", sink="formats:rfc1123")
 
 
+# ----------------------------------------------------------------------------
+# R5 parse_dates
+# ----------------------------------------------------------------------------
+
 def rule_parse_dates(ck):
     repo = ck.repo
     f = repo.fn("parse_dates")
     fl = flow_of(f)
     cfg = fl.cfg
     doc = f.params[0]
-    loops = [n for n in cfg.nodes if n.kind == "for"]
-    ck.require(len(loops) == 1 and canon(loops[0].stmt.iter) in (doc, f"{doc}.keys()", f"list({doc})", f"list({doc}.keys())"), "C20.R5", f, loops[0].stmt.iter if loops else "for field in doc",
-               ok="every field visited", bad="parse_dates does not visit every field of the document", sink="parse_dates:iter")
-    if not loops:
+    loops = [n for n in cfg.nodes if n.kind == "for" and canon(n.stmt.iter) in (doc, f"{doc}.keys()", f"list({doc})", f"list({doc}.keys())", f"{doc}.items()", f"list({doc}.items())")]
+    ck.require(len(loops) == 1, "C20.R5", f, loops[0].stmt.iter if loops else "for field in doc", ok="every field visited", bad="parse_dates does not visit every field of the document", sink="parse_dates:iter")
+    if len(loops) != 1:
         return
-    inner = cfg.loop_region(loops[0])
-    esc = [n for n in inner if n.kind in ("break", "continue", "return")]
-    ck.require(not esc, "C20.R5", f, esc[0].stmt if esc else loops[0].stmt.iter, ok="no field skipped", bad="fields can be skipped (break/continue/return in the field loop)", sink="parse_dates:no-skip")
-    var = loops[0].stmt.target.id
-    tzdef = canon(fl.expand(ast.Name(id="tz", ctx=ast.Load()), loops[0]))
-    ck.require(tzdef == f"pytz.timezone({doc}['timezone'])", "C20.R5", f, tzdef, ok="zone = the document's own time zone", bad=f"the target zone is `{tzdef}`, not pytz.timezone(doc['timezone'])", sink="parse_dates:tz")
+    lp = loops[0]
+    inner = cfg.loop_region(lp)
+    esc = [n for n in inner if n.kind in ("break", "continue", "return") and not [t for t, lab in cfg.edges_dominating(n) if t.kind == "for" and t is not lp and lab]]
+    ck.require(not esc, "C20.R5", f, esc[0].stmt if esc else lp.stmt.iter, ok="no field skipped", bad="fields can be skipped (break/continue/return in the field loop)", sink="parse_dates:no-skip")
+    items_form = ".items()" in canon(lp.stmt.iter)
+    key = f"__key__({doc})" if items_form else f"__elem__({doc})"
+    field_val = {f"{doc}[{key}]", f"__val__({doc})"}
+    tz_want = f"pytz.timezone({doc}['timezone'])"
+
+    def is_field(e, n):
+        return canon(fl.expand(e, n)) in field_val
+
+    def tz_ok(e, n):
+        return canon(fl.expand(e, n)) == tz_want
     calls = [(n, c) for n, c in calls_in(fl, "parse_http_date")]
-    scalar = [(n, c) for n, c in calls if not any(isinstance(x, (ast.ListComp, ast.GeneratorExp)) for x in ast.walk(n.stmt if n.stmt is not None else n.expr) if c in ast.walk(x))]
     ck.require(len(calls) == 2, "C20.R5", f, "parse_http_date call sites", ok="scalar fields and time-series entries both converted", bad=f"{len(calls)} parse_http_date call sites (scalar fields and the time series need one each)",
                sink="parse_dates:sites")
     for n, c in calls:
-        ck.require(len(c.args) == 2 and canon(fl.expand(c.args[1], n)) == f"pytz.timezone({doc}['timezone'])", "C20.R5", f, c, ok="converted into the document's zone", bad="parse_http_date is not given the document's time zone",
+        ck.require(len(c.args) == 2 and tz_ok(c.args[1], n), "C20.R5", f, c, ok="converted into the document's zone", bad="parse_http_date is not given the document's time zone (pytz.timezone(doc['timezone']))",
                    sink="parse_dates:tz-arg")
-    # scalar store
-    st = [n for n in inner if n.kind == "stmt" and isinstance(n.stmt, ast.Assign) and isinstance(n.stmt.targets[0], ast.Subscript) and canon(n.stmt.targets[0]) == f"{doc}[{var}]"]
-    ok = bool(st) and all(canon(fl.expand(n.stmt.value, n)).replace(f"__elem__({doc})", var) == f"parse_http_date({doc}[{var}], pytz.timezone({doc}['timezone']))" for n in st)
+    # scalar store: doc[field] = parse_http_date(doc[field], tz) for every string field
+    st = [n for n in inner if n.kind == "stmt" and isinstance(n.stmt, ast.Assign) and isinstance(n.stmt.targets[0], ast.Subscript)
+          and canon(fl.expand(n.stmt.targets[0], n)) in field_val]
+    ok = bool(st)
+    for n in st:
+        v = fl.expand(n.stmt.value, n)
+        ok = ok and isinstance(v, ast.Call) and call_name(v) == "parse_http_date" and len(v.args) == 2 and canon(v.args[0]) in field_val and canon(v.args[1]) == tz_want
     ck.require(ok, "C20.R5", f, st[0].stmt if st else f"{doc}[field] = dt", ok="string fields replaced by their parsed datetime", bad="string fields are not replaced by parse_http_date(doc[field], tz)", sink="parse_dates:scalar")
     for n in st:
-        ok = any(isinstance(a, ast.Call) and call_name(a) == "isinstance" and canon(a.args[0]) == f"{doc}[{var}]" and dotted(a.args[1]) == "str" and t for a, t in facts_at(fl, n))
-        ck.require(ok, "C20.R5", f, n.stmt, ok="for every string field", bad="the scalar conversion is not applied to every string field", sink="parse_dates:scalar-guard")
-    # only ValueError is swallowed
+        facts = facts_at(fl, n)
+        isstr = [(a, t) for a, t in facts if isinstance(a, ast.Call) and call_name(a) == "isinstance" and len(a.args) == 2 and dotted(a.args[1]) == "str" and is_field(a.args[0], n)]
+        other = [(a, t) for a, t in facts if (a, t) not in isstr]
+        ck.require(bool(isstr) and all(t for a, t in isstr) and not other, "C20.R5", f, n.stmt, ok="for every string field", bad="the scalar conversion is not applied to every string field"
+                   + (f" (additional condition `{src(other[0][0], 40)}`)" if other else ""), sink="parse_dates:scalar-guard")
     for t in ast.walk(f.node):
         if isinstance(t, ast.Try):
             for h in t.handlers:
                 ck.require(h.type is not None and dotted(h.type) == "ValueError", "C20.R5", f, h, ok="only non-date strings (ValueError) are skipped", bad="parse_dates swallows more than ValueError", sink="parse_dates:except")
-    # time series
-    ts = [n for n in inner if n.kind == "stmt" and isinstance(n.stmt, ast.Assign) and isinstance(n.stmt.targets[0], ast.Subscript) and canon(n.stmt.targets[0]) == f"{doc}[{var}]['timestamps']"]
+    # time series: <field value>['timestamps'] = [parse_http_date(ts, tz) for ts in <field value>['timestamps']]
+    ts_targets = {f"{v}['timestamps']" for v in field_val}
+    ts = [n for n in inner if n.kind == "stmt" and isinstance(n.stmt, ast.Assign) and isinstance(n.stmt.targets[0], ast.Subscript) and canon(fl.expand(n.stmt.targets[0], n)) in ts_targets]
     ck.require(len(ts) == 1, "C20.R5", f, ts[0].stmt if ts else "doc[field]['timestamps'] = [...]", bad=f"{len(ts)} stores of converted time-series timestamps", sink="parse_dates:ts-store")
     for n in ts:
-        v = n.stmt.value
-        ok = isinstance(v, ast.ListComp) and len(v.generators) == 1 and not v.generators[0].ifs and canon(v.generators[0].iter) == f"{doc}[{var}]['timestamps']" and \
-            isinstance(v.elt, ast.Call) and call_name(v.elt) == "parse_http_date" and dotted(v.elt.args[0]) == dotted(v.generators[0].target) and canon(fl.expand(v.elt.args[1], n)) == f"pytz.timezone({doc}['timezone'])"
-        ck.require(bool(ok), "C20.R5", f, v, ok="every time-series timestamp converted by the same function, one by one", bad=f"time-series timestamps are converted by `{src(v, 80)}`, not by parse_http_date(ts, tz) applied to "
-                   f"each entry: entries on the other side of a DST change get the wrong offset", sink="parse_dates:ts-each")
-        ok = any(isinstance(a, ast.Call) and call_name(a) == "isinstance" and dotted(a.args[1]) == "dict" and t for a, t in facts_at(fl, n)) and \
-            any((c := cmp_norm(a, t)) and c[1] == "in" and isinstance(c[0], ast.Constant) and c[0].value == "timestamps" for a, t in facts_at(fl, n))
-        extra = [a for a, t in facts_at(fl, n) if not (isinstance(a, ast.Call) and call_name(a) == "isinstance") and
-                 not ((c := cmp_norm(a, t)) and c[1] == "in" and isinstance(c[0], ast.Constant) and c[0].value == "timestamps")]
-        ck.require(ok and not extra, "C20.R5", f, n.stmt, ok="for every nested time series", bad="the time-series conversion is not applied to every dict field with 'timestamps'"
-                   + (f" (additional condition `{src(extra[0], 40)}`)" if extra else ""), sink="parse_dates:ts-guard")
+        v = fl.expand(n.stmt.value, n)
+        ok = isinstance(v, ast.ListComp) and len(v.generators) == 1 and not v.generators[0].ifs and canon(v.generators[0].iter) in ts_targets and \
+            isinstance(v.elt, ast.Call) and call_name(v.elt) == "parse_http_date" and len(v.elt.args) == 2 and dotted(v.elt.args[0]) == dotted(v.generators[0].target) and canon(v.elt.args[1]) == tz_want
+        ck.require(bool(ok), "C20.R5", f, n.stmt.value, ok="every time-series timestamp converted by the same function, one by one", bad=f"time-series timestamps are converted by `{src(n.stmt.value, 80)}`, not by "
+                   f"parse_http_date(ts, tz) applied to each entry: entries on the other side of a DST change get the wrong offset", sink="parse_dates:ts-each")
+        facts = facts_at(fl, n)
+        isd = [(a, t) for a, t in facts if isinstance(a, ast.Call) and call_name(a) == "isinstance" and len(a.args) == 2 and dotted(a.args[1]) == "dict" and is_field(a.args[0], n) and t]
+        has = [(a, t) for a, t in facts if (c := cmp_norm(a, t)) and c[1] == "in" and isinstance(c[0], ast.Constant) and c[0].value == "timestamps" and is_field(c[2], n)]
+        # an `elif` after the string test adds the (implied) fact `not isinstance(value, str)`
+        implied = [(a, t) for a, t in facts if isinstance(a, ast.Call) and call_name(a) == "isinstance" and len(a.args) == 2 and dotted(a.args[1]) == "str" and not t]
+        other = [(a, t) for a, t in facts if (a, t) not in isd and (a, t) not in has and (a, t) not in implied]
+        ck.require(bool(isd) and bool(has) and not other, "C20.R5", f, n.stmt, ok="for every nested time series", bad="the time-series conversion is not applied to every dict field with 'timestamps'"
+                   + (f" (additional condition `{src(other[0][0], 40)}`)" if other else ""), sink="parse_dates:ts-guard")
 
 
 def run(ck):
